@@ -64,6 +64,7 @@ def dispatch (line : String) : String :=
   | "prelude" :: rest => handlePrelude rest
   | "trylower" :: rest => handleTryLower rest
   | "analysis" :: rest => handleAnalysis rest
+  | "loopctx" :: rest => handleLoopCtx rest
   | "arr" :: rest => handleArr rest
   | "f64" :: rest => handleF64 rest
   | "opt" :: rest => handleOpt rest
